@@ -75,6 +75,7 @@ type c14In struct {
 	Worker  bool     `json:"worker,omitempty"` // verdicts go through the real HealthCheckWorker and gated loopback health endpoints
 	Fam     string   `json:"fam,omitempty"`    // generator family (histogram only)
 	Keep    bool     `json:"keep,omitempty"`   // stress2: fail_timeout 1h (every failure still counted at the end)
+	Flip    bool     `json:"flip,omitempty"`   // stress2: a free-running agent stores random health verdicts meanwhile
 	Threads int      `json:"threads,omitempty"`
 	Steps   []c14Adv `json:"steps,omitempty"`
 	N       int64    `json:"n,omitempty"`
@@ -1009,8 +1010,37 @@ func c14Stress2(in *c14In) Result {
 			}
 		}(t)
 	}
+	stopFlip := make(chan struct{})
+	flipDone := make(chan struct{})
+	go func() {
+		// what the health-check worker does to the hosts, as fast as it can: store a verdict
+		defer close(flipDone)
+		fr := NewRand(in.Seed + 17)
+		for in.Flip {
+			select {
+			case <-stopFlip:
+				return
+			default:
+			}
+			v := int32(0)
+			if fr.Chance(40) {
+				v = 1
+			}
+			atomic.StoreInt32(&hosts[fr.Intn(len(hosts))].Unhealthy, v)
+			if fr.Chance(50) {
+				runtime.Gosched()
+			} else {
+				time.Sleep(time.Duration(fr.Intn(200)) * time.Microsecond)
+			}
+		}
+	}()
 	close(start)
 	wg.Wait()
+	close(stopFlip)
+	<-flipDone
+	for _, h := range hosts {
+		atomic.StoreInt32(&h.Unhealthy, 0)
+	}
 	if !in.Keep {
 		// every expiry goroutine gets all the time it may need (a loaded machine only makes this slower);
 		// a decrement that never comes is still missing after 20 s
@@ -1061,8 +1091,8 @@ func c14Stress2(in *c14In) Result {
 	return Result{Term: cApp("CStress2", cNat(in.Hosts), cZ(in.MC), cBool(in.Keep), cZ(nreq), cList(obs), cZ(answered)),
 		Obs: map[string]interface{}{"per_host_maxinfl_minconns_maxconns_low_finalconns_finalfails_errors": raw, "answered": answered,
 			"requests": nreq, "forwards": fwd, "block": text},
-		Sig: sig, Nontrivial: fwd > 0, Key: fmt.Sprintf("stress2:%d:%d:%d:%d:%d:%v:%s:%d", in.Hosts, in.MC, in.Threads, in.Reqs, in.Seed, in.Keep, in.Policy, in.MF),
-		Class: fmt.Sprintf("stress2:hosts%d:mc%d:keep=%v", in.Hosts, in.MC, in.Keep)}
+		Sig: sig, Nontrivial: fwd > 0, Key: fmt.Sprintf("stress2:%d:%d:%d:%d:%d:%v:%s:%d", in.Hosts, in.MC, in.Threads, in.Reqs, in.Seed, in.Keep, in.Policy, in.MF) + fmt.Sprint(in.Flip),
+		Class: fmt.Sprintf("stress2:hosts%d:mc%d:keep=%v:health-flips=%v", in.Hosts, in.MC, in.Keep, in.Flip)}
 }
 
 type c14RT func(*http.Request) (*http.Response, error)
@@ -1525,7 +1555,7 @@ func c14Gen(r *Rand, tier string) []interface{} {
 	// 9. free-running stress on 16 Ps: thousands of requests, random outcomes
 	for i := 0; i < nStress; i++ {
 		in := &c14In{Kind: "stress2", Hosts: r.Range(1, 3), MC: []int64{0, 1, 2, 4}[r.Intn(4)], Threads: r.Range(16, 48), Reqs: r.Range(60, 150),
-			Policy: r.Pick(allPols), Seed: r.U64() % 1000000, Keep: i%3 == 2}
+			Policy: r.Pick(allPols), Seed: r.U64() % 1000000, Keep: i%3 == 2, Flip: i%2 == 0}
 		if in.Keep {
 			in.MF = []int{0, 2, 5}[r.Intn(3)]
 		}
